@@ -388,7 +388,7 @@ const prelude = `(set-option :produce-models true)
 (declare-fun sat (Str Int) Int)
 (declare-const str_empty Str)
 (assert (= (slen str_empty) 0))
-(assert (forall ((s Str)) (! (and (>= (slen s) 0) (< (slen s) 4611686018427387904)) :pattern ((slen s)))))
+(assert (forall ((s Str)) (! (and (>= (slen s) 0) (< (slen s) 1152921504606846976)) :pattern ((slen s)))))
 (assert (forall ((s Str)) (! (=> (= (slen s) 0) (= s str_empty)) :pattern ((slen s)))))
 (assert (forall ((s Str) (k Int)) (! (and (<= 0 (sat s k)) (<= (sat s k) 255)) :pattern ((sat s k)))))
 (declare-const alim Int)
